@@ -4,7 +4,7 @@ namespace mm {
 bool build_group_s5(const Spec& s, XVisitor& v) {
   S_GROUP_HEAD
   S_P("b20", BandEngine<ROW_MAJOR MM_COMMA 2 MM_COMMA 0>, 0) S_P("b02", BandEngine<ROW_MAJOR MM_COMMA 0 MM_COMMA 2>, 0)
-  S_PA("b12", BandEngine<ROW_MAJOR MM_COMMA 1 MM_COMMA 2>, 1)
+  S_PA("b12", BandEngine<ROW_MAJOR MM_COMMA 1 MM_COMMA 2>, 1, 0)
   return false;
 }
 }
